@@ -28,7 +28,7 @@ func init() {
 		Assumptions: []string{"ref.Match implements DESIGN.md 8.2 and is trusted inside the core domain", "laws need no reference"},
 		Batches:     func(tier string) int { return 16 },
 		Require: func(tier string) map[string]int64 {
-			return map[string]int64{"ref_asserted": 2000, "laws_checked": 5000, "driver_compared": 200, "nontrivial_filters": 100}
+			return map[string]int64{"ref_asserted": 2000, "laws_checked": 5000, "driver_compared": 200, "nontrivial_filters": 100, "numeric_pairs_asserted": 100000}
 		},
 		Run: runC10,
 	})
@@ -83,6 +83,7 @@ func runC10(c *fw.Ctx) {
 		return
 	}
 	defer engine.Close()
+	c10NumericPairs(c)
 	for q := 0; q < ncases; q++ {
 		idx := c.Batch*ncases + q
 		if c.Skip(idx) {
@@ -108,6 +109,12 @@ func runC10(c *fw.Ctx) {
 			if wild {
 				o = gen.Opts{Pool: gen.Boundary, Depth: 3, MaxArr: 4, MaxFields: 4, NestedArr: true, NumericKeys: true}
 				fo = gen.FilterOpts{Pool: gen.Boundary, Wild: true}
+			} else if idx%4 == 1 {
+				// core-shaped documents and filters with boundary numerics (the
+				// reference compares numbers exactly, so agreement is asserted)
+				o = gen.DefaultOpts(gen.Boundary)
+				fo = gen.FilterOpts{Pool: gen.Boundary}
+				c.Count("core_cases_with_boundary_values", 1)
 			}
 			base := gen.Doc(r, o, false)
 			docs = []bson.D{base, mutateDoc(r, base, o), mutateDoc(r, base, o), gen.Doc(r, o, false), gen.Doc(r, o, false), mutateDoc(r, base, o)}
@@ -116,6 +123,68 @@ func runC10(c *fw.Ctx) {
 				filters = append(filters, g.Filter(0))
 			}
 			c10Case(c, client, idx, wild, docs, filters, r)
+		})
+	}
+}
+
+// c10NumericPairs: every pair of the curated numeric values (both pools: equal
+// numbers of different types, the int/double/decimal exactness borders,
+// non-finite values), stored as a field, as an array element and below an
+// embedded document, against every comparison form; the truth value must be
+// the reference's (numbers compare exactly across types).
+func c10NumericPairs(c *fw.Ctx) {
+	var nums []interface{}
+	nums = append(nums, gen.CoreNumbers...)
+	nums = append(nums, gen.BoundaryNumbers...)
+	for xi, x := range nums {
+		if xi%c.NBatches != c.Batch {
+			continue
+		}
+		idx := 9000000 + xi
+		if c.Skip(idx) {
+			continue
+		}
+		docs := []bson.D{{{Key: "a", Value: x}}, {{Key: "a", Value: bson.A{"s", x}}}, {{Key: "a", Value: bson.D{{Key: "b", Value: x}}}}}
+		c.Case(idx, func() interface{} { return map[string]interface{}{"value": gen.JSON(bson.D{{Key: "v", Value: x}})} }, nil, func() {
+			c.Eval(1)
+			for _, y := range nums {
+				for _, op := range []string{"", "$eq", "$ne", "$gt", "$gte", "$lt", "$lte", "$in", "$nin"} {
+					var cond interface{}
+					switch op {
+					case "":
+						cond = y
+					case "$in", "$nin":
+						cond = bson.D{{Key: op, Value: bson.A{"zz", y}}}
+					default:
+						cond = bson.D{{Key: op, Value: y}}
+					}
+					for di, d := range docs {
+						path := "a"
+						if di == 2 {
+							path = "a.b"
+						}
+						f := bson.D{{Key: path, Value: cond}}
+						lr, lerr, _ := lungoMatch(d, f)
+						info := &ref.MatchInfo{Seen: map[string]int{}}
+						rr, rerr := ref.Match(d, f, info)
+						if rerr != nil || info.OutOfDomain {
+							c.Count("numeric_pairs_out_of_domain", 1)
+							continue
+						}
+						c.Count("numeric_pairs_asserted", 1)
+						w := map[string]string{"doc": gen.JSON(d), "filter": gen.JSON(f)}
+						if lerr != nil {
+							w["error"] = lerr.Error()
+							c.Violate("match:error-on-wellformed", "Match returned an error for a well-formed numeric comparison: "+lerr.Error(), w)
+							return
+						}
+						if lr != rr {
+							c.Violate(orGeneric(c10KeyFor(d, f), "match:vs-ref"), fmt.Sprintf("Match=%v but MongoDB semantics (reference) give %v (numeric pair sweep)", lr, rr), w)
+							return
+						}
+					}
+				}
+			}
 		})
 	}
 }
